@@ -249,9 +249,10 @@ static uint32_t
 capacity(bool tcp, bool write, bool sem16)
 {
     const size_t rawcap = BLOCKSIZE - sizeof(RPFrame);
-    const size_t hdr = 16; /* both checksums: a bound for every frame kind */
-    (void)tcp;
-    (void)write;
+    /* exact: a read's answer is stored behind the request's own header (12
+     * octets on tcp, 14 on serial: header checksum only); a write must fit
+     * with its header (12 on tcp, 16 on serial: both checksums) */
+    const size_t hdr = tcp ? 12 : (write ? 16 : 14);
     return (uint32_t)((rawcap - hdr) / (sem16 ? 2 : 1));
 }
 
